@@ -1,6 +1,6 @@
 (* Property C01: a job never starts before every one of its requirements has finished.
    Only property theorems here, each closed by [exact]. Model R, level 0 (hence every level). *)
-From AJ Require Import Common.Util Run.RModel Run.RFacts Run.RInv Run.RMon Run.RProps1 Props.RExample.
+From AJ Require Import Common.Util Run.RModel Run.RFacts Run.RInv Run.RMon Run.RProps1 Props.RExample Run.RSchedDef Run.RSched Run.RSchedTop Run.RSchedCor.
 
 (* In every reachable state, whenever the model accepts the event by which a job enters its body
    (EStart for an atomic job, EBegin for a nested scheduler), every requirement of that job is
@@ -42,6 +42,14 @@ Print Assumptions C01_accepted_histories.
 
 (* non-vacuity: the recorded implementation run is accepted and contains starts of jobs that
    have requirements, one of them inside a nested scheduler that itself has none *)
+(* in closed form: the instant computed for the start of a job is never before the instant computed
+   for the end of any of its requirements, nor before the beginning of its scheduler -- and every
+   execution of a tree without window or forever job follows those instants (C12_runs_on_computed_scheduleH) *)
+Theorem C01_schedule_respects_requirements : forall c S E x r, is_scheduleH c S E -> x < njobs c -> x <> 0 ->
+  In r (reqs c x) -> (E r <= S x)%N /\ (S (parent c x) <= S x)%N.
+Proof. exact schedule_respects_requirements. Qed.
+Print Assumptions C01_schedule_respects_requirements.
+
 Example C01_nonvacuous :
   wf ex_cfg = true /\ accept 3 ex_cfg ex_hist = true /\
   In (EStart 6) ex_hist /\ reqs ex_cfg 6 = [1; 2] /\ In (EStart 4) ex_hist /\ parent ex_cfg 4 = 3.
